@@ -326,7 +326,13 @@ def _mentions_names(node, names):
     return any(isinstance(x, ast.Name) and x.id in names for x in ast.walk(node))
 
 
+def rule_watcher_wiring(ctx):
+    """R-C14-7: inotify events reach the workflow."""
+    shared.check_watcher_wired(ctx, "a change that a restart would find by rescanning never reaches the workflow in watch mode")
+
+
 RULES = [
+    Rule("R-C14-7", "events travel from inotify to the workflow", rule_watcher_wiring, min_instances=4),
     Rule("R-C14-1", "same reactions on both sides", rule_same_reactions, min_instances=10),
     Rule("R-C14-2", "same relevance filter", rule_same_filter, min_instances=5),
     Rule("R-C14-3", "event folding keeps the sets disjoint", rule_event_folding, min_instances=15),
@@ -336,6 +342,9 @@ RULES = [
 ]
 
 MUTANTS = [
+    Mutant("file-events-not-queued", "watcher.py", in_function("AsyncInotifyWrapper.change_loop", replace_once("            else:\n                self.change_queue.put_nowait((change, path))\n", "            else:\n                pass\n")), ("R-C14-7",)),
+    Mutant("new-directory-files-not-queued", "watcher.py", in_function("AsyncInotifyWrapper.change_loop", replace_once("                                self.change_queue.put_nowait((Change.UPDATED, sub_path))\n", "                                pass\n")), ("R-C14-7",)),
+    Mutant("watch-phase-events-not-recorded", "watcher.py", in_function("Watcher.run_once", replace_once("            async with self.db:\n                await self.record_change(change, path)\n", "            pass\n")), ("R-C14-7",)),
     Mutant("watcher-forgets-unsettled", "watcher.py", in_function("Watcher.run_once", lambda t: t.replace("        self.deleted &= unsettled\n        self.updated &= unsettled\n", "        self.deleted.clear()\n        self.updated.clear()\n", 1) if "self.deleted &= unsettled" in t else None), ("R-C14-6",)),
     Mutant("watcher-forgets-unsettled-updates", "watcher.py", in_function("Watcher.run_once", replace_once("        self.updated &= unsettled\n", "        self.updated.clear()\n")), ("R-C14-6",)),
     Mutant("unsettled-is-what-was-hashed", "watcher.py", in_function("Watcher.run_once", replace_once("        unsettled = set(old_hashes) - set(new_hashes)\n", "        unsettled = set(new_hashes) - set(old_hashes)\n")), ("R-C14-6",)),
